@@ -1303,7 +1303,13 @@ class ABCPropertyGraph(ABCPropertyGraphConstants):
         props = self.interface_sliver_to_graph_properties_dict(interface)
         self.add_node(node_id=interface.node_id, label=ABCPropertyGraph.CLASS_ConnectionPoint, props=props)
         if parent_node_id is not None:
-            self.add_link(node_a=parent_node_id, rel=ABCPropertyGraph.REL_CONNECTS, node_b=interface.node_id)
+            try:
+                self.add_link(node_a=parent_node_id, rel=ABCPropertyGraph.REL_CONNECTS, node_b=interface.node_id)
+            except PropertyGraphQueryException:
+                # the parent is not (or no longer) in the graph, e.g. the call was made through the object of a
+                # network service that has been removed: do not leave an unattached interface behind
+                self.delete_node(node_id=interface.node_id)
+                raise
         # child interfaces (if any) hang off this interface
         ii = interface.interface_info
         if ii is not None:
